@@ -145,6 +145,7 @@ class Ctx:
         self.inconclusive: list[str] = []
         self.notes: list[str] = []
         self.exhaustive: list[str] = []
+        self.extra: dict[str, Any] = {}
         self.t0 = time.time()
 
     # -- observation -------------------------------------------------------
@@ -213,6 +214,7 @@ class Ctx:
             "violations": self.violations,
             "inconclusive": self.inconclusive, "notes": self.notes,
             "exhaustive": self.exhaustive,
+            "extra": jsonable(self.extra),
             "wall_s": round(self.elapsed(), 2)}
 
 
@@ -361,7 +363,10 @@ def _run(mod, pid, tier, seed, thash, workdir, t0) -> int:
     exhaustive: list[str] = []
     evaluations = 0
     per_shard = []
+    extras: dict[str, Any] = {}
     for r in results:
+        if r.get("extra"):
+            extras[r["name"]] = r["extra"]
         evaluations += r["evaluations"]
         counters.update(r["counters"])
         for k, v in r["maxima"].items():
@@ -442,7 +447,7 @@ def _run(mod, pid, tier, seed, thash, workdir, t0) -> int:
         "exhaustive_subspaces": exhaustive,
         "monitor_counters": {k: counters[k] for k in sorted(counters)},
         "observed_maxima": maxima, "observed_minima": minima,
-        "shards": per_shard, "notes": notes,
+        "shards": per_shard, "notes": notes, "shard_observations": extras,
         "known_findings_seen": sorted(known_hit),
         "inconclusive": inconclusive,
         "tree_hash": thash,
